@@ -1818,21 +1818,26 @@ class VM:
             return float("nan")
 
         def indexOf(*args):
-            search = to_string(args[0]) if args else ""
+            search = to_string(args[0]) if args else "undefined"
             start = to_integer(args[1]) if len(args) > 1 else 0
-            if start < 0:
-                start = 0
+            start = min(max(start, 0), len(s))
             return s.find(search, start)
 
         def lastIndexOf(*args):
-            search = to_string(args[0]) if args else ""
-            end = to_integer(args[1]) if len(args) > 1 else len(s)
+            search = to_string(args[0]) if args else "undefined"
+            pos = to_number(args[1]) if len(args) > 1 else float("nan")
+            # A NaN position (including a missing one) searches the whole string
+            end = len(s) if math.isnan(pos) else min(max(to_integer(pos), 0), len(s))
             # Python's rfind with end position
             return s.rfind(search, 0, end + len(search))
 
         def substring(*args):
             start = to_integer(args[0]) if args else 0
-            end = to_integer(args[1]) if len(args) > 1 else len(s)
+            end = (
+                to_integer(args[1])
+                if len(args) > 1 and args[1] is not UNDEFINED
+                else len(s)
+            )
             # Clamp and swap if needed
             if start < 0:
                 start = 0
@@ -1844,7 +1849,11 @@ class VM:
 
         def slice_fn(*args):
             start = to_integer(args[0]) if args else 0
-            end = to_integer(args[1]) if len(args) > 1 else len(s)
+            end = (
+                to_integer(args[1])
+                if len(args) > 1 and args[1] is not UNDEFINED
+                else len(s)
+            )
             # Handle negative indices
             if start < 0:
                 start = max(0, len(s) + start)
@@ -1932,19 +1941,34 @@ class VM:
                 raise JSRangeError("Invalid count value")
             return s * count
 
+        def search_string(args, method):
+            if args and isinstance(args[0], JSRegExp):
+                raise JSTypeError(
+                    f"First argument to String.prototype.{method} "
+                    "must not be a regular expression"
+                )
+            return to_string(args[0]) if args else "undefined"
+
         def startsWith(*args):
-            search = to_string(args[0]) if args else ""
+            search = search_string(args, "startsWith")
             pos = to_integer(args[1]) if len(args) > 1 else 0
+            pos = min(max(pos, 0), len(s))
             return s[pos:].startswith(search)
 
         def endsWith(*args):
-            search = to_string(args[0]) if args else ""
-            length = to_integer(args[1]) if len(args) > 1 else len(s)
+            search = search_string(args, "endsWith")
+            length = (
+                to_integer(args[1])
+                if len(args) > 1 and args[1] is not UNDEFINED
+                else len(s)
+            )
+            length = min(max(length, 0), len(s))
             return s[:length].endswith(search)
 
         def includes(*args):
-            search = to_string(args[0]) if args else ""
+            search = search_string(args, "includes")
             pos = to_integer(args[1]) if len(args) > 1 else 0
+            pos = min(max(pos, 0), len(s))
             return search in s[pos:]
 
         def replace(*args):
